@@ -2049,6 +2049,12 @@ func (x *Exec) execRange(s *ast.RangeStmt, env *Env, label string) *Env {
 				env.vars[valObj] = x.zero(valObj.Type())
 			}
 		}
+		if strings.Contains(coll.S, "(ite ") {
+			// e.g. ranging over m[k] of a map of maps: name the collection so that no if-then-else ends up in a trigger
+			got := coll.GoT
+			coll = x.named("rangedmap", coll)
+			coll.GoT = got
+		}
 		dom, _ := x.W.Field(coll, "dom")
 		val, _ := x.W.Field(coll, "val")
 		ks := arrayKeySort(dom.Sort)
